@@ -143,7 +143,12 @@ func sigKeys(numParts int) []string {
 func (pr *PersistRestorer) Staged(_ context.Context, s channel.Source) error {
 	db := pr.channelDB(s.ID()).NewBatch()
 
-	if err := dbPutSource(db, s, "staging:state", "phase"); err != nil {
+	// The signatures belong to the staged state, so they are rewritten together
+	// with it. Otherwise a signature collected for a previously staged state
+	// (discarded or replaced) would be restored alongside the new staged state.
+	numParts := len(s.Params().Parts)
+	keys := append([]string{"staging:state", "phase"}, sigKeys(numParts)...)
+	if err := dbPutSource(db, s, keys...); err != nil {
 		return err
 	}
 
